@@ -187,8 +187,8 @@ def gen_choices(rng: random.Random, custom: bool, hostile_defaults: bool) -> lis
             value = rng.choice(('a\\b', 'q"q', 'models\\x.mdl'))
         else:
             value = rng.choice((ident(rng), pathlike(rng), short_text(rng, False, 12, escapes=False)))
-        # choice names are always written with the classic escaping: no newline, quote or backslash
-        name = any_text(rng, False, p_empty=0.08, p_long=0.02, newlines=False, escapes=False).replace('\n', ' ')
+        # choice names: no newline (export documents replacing it); quotes/backslashes only where the syntax has escapes
+        name = any_text(rng, custom, p_empty=0.08, p_long=0.02, newlines=False, escapes=custom and hostile_defaults).replace('\n', ' ')
         out.append((value, name, gen_tags(rng) if rng.random() < 0.3 else frozenset()))
     return out
 
